@@ -405,6 +405,10 @@ def stmt_path(s: str) -> list:
 def block_path(lines: list[str], ct: str) -> list:
     if not lines:
         return ["?", "empty"]
+    if lines[0] == "if 200 <= response.status_code < 300:":      # default response with content (statuses here are 2xx)
+        return block_path(lines[1:], ct)
+    if lines[0].startswith("if 400 <= response.status_code < 500:"):   # range-aware raise of `case _`
+        return ["PRaiseHTTP"]
     if lines[0].startswith("content_type = response.headers.get("):
         i = 1
         while i < len(lines):
@@ -430,7 +434,11 @@ def source_obs(src: str, op_i: int, st: int, ct: str) -> tuple[list, bool, str]:
     ann, cases = method_blocks(src)[f"op{op_i}"]
     lines = cases.get(str(st))
     if lines is None:
-        lines = cases.get("_", [])
+        rng_label = next((k for k in cases if k.startswith("_ if ")), None)   # case _ if 200 <= response.status_code < 300:
+        if rng_label == "_ if 200 <= response.status_code < 300" and 200 <= st < 300:
+            lines = cases[rng_label]
+        else:
+            lines = cases.get("_", [])
     imported = bool(re.search(r"^from \S+cattrs_converter import .*\bstructure_from_dict\b", src, re.M))
     return block_path(lines, ct), imported, ann
 
@@ -742,7 +750,11 @@ def run_modules(mods: list[list[list[dict]]]) -> list[dict]:
             for inp in inputs:
                 r = mod[inp["op"]][inp["resp"]]
                 e = r["content"][inp["entry"]] if inp["entry"] is not None else None
-                st = int(r["code"]) if r["code"].isdigit() else 200
+                if r["code"].isdigit():
+                    st = int(r["code"])
+                else:   # range key "2XX": the first 2xx status the operation does not also declare numerically
+                    taken = {int(x["code"]) for x in mod[inp["op"]] if x["code"].isdigit()}
+                    st = next((n for n in range(200, 300) if n not in taken), 200)
                 calls.append([inp["op"], st, e["media"] if e else None, body_bytes(e, inp.get("wire")).hex(),
                               chunk_of(e, inp.get("wire"))])
             src = (root / pkg / "endpoints" / "t.py").read_text() if g.ok else ""
@@ -832,7 +844,7 @@ def main(chk: Check, replay: dict | None = None) -> int:
         codes = chk.coq_eval(imports, "dcase * pobs",
                              [f"({c_dcase(c['input'])}, ({c_path(c['obs']['path'])}, {cbool(c['obs']['imported'])}, {cstr(c['obs']['annotation'])}))"
                               for c in cases], "run", shard=150, prelude=prelude)
-    chk.decide(cases, codes, {1: "F05b", 2: "F05c", 3: "F05e", 4: "F05f", 5: "F05g", 6: "F05h", 7: "F05i"},
+    chk.decide(cases, codes, {1: "F05b", 2: "F05c", 3: "F05f", 4: "F05h", 5: "F05i"},
                "Corr.C05.run: handle/module_has_cattrs/resolve (model) = decode expression, import and annotation in the generated source")
     # (A) function level
     n = 4000 if chk.thorough else 900
